@@ -954,7 +954,7 @@ pub fn main() {
     }
     let shards = run.scale(8, 16);
     let per_shard = run.scale(2500, 60_000);
-    let node_every = run.scale(4, 20);
+    let node_every = run.scale(8, 20);
     std::thread::scope(|sc| {
         for shard in 0..shards {
             let run = &run;
